@@ -53,6 +53,9 @@ ASSUMPTIONS = [
 OUTSIDE = ["more than two calls / other working-directory changes than the enumerated pairs", "names longer than the stated bound other than the enumerated segment shapes and stretch + tail forms, sizes other than the listed ones", "roots other than the enumerated "
            "spellings", "symbolic links, Windows separators/drive letters, bytes file names", "trees other than the fixed one (+ chain of 130 directories and a 200-character file name in the long families)"]
 BUDGET_S = {"quick": 300, "thorough": 1150}
+# the same queries against ombott compiled as `python -O` / PYTHONOPTIMIZE=1 runs it (assert statements removed): a
+# guarantee about which files may be opened must not rest on an assertion
+ALSO_BUILDS = {"O": "any/*/len[04]*"}
 
 # a dict is a directory, n >= 0 a readable regular file of n bytes, n < 0 a file without read permission
 # ('/r' is a second directory that the relative root 'r' names, from the working directory '/': family `twice`)
@@ -74,6 +77,15 @@ ROOTS = [
 
 stubs_c16.keep_caches("ombott.")            # lru_cache'd helpers of ombott keep their cache between calls (family twice)
 FS = stubs_c16.Binding(static_stream)      # os / open of static_stream; FS.fs is set afresh by every run
+# the same fake file system for every other module of the package that imports `os`: path handling that a refactoring
+# moves out of static_stream into a helper module keeps running on the fake file system (and under the tracer)
+import os as _real_os                       # noqa: E402
+import sys as _sys                          # noqa: E402
+for _name, _mod in sorted(_sys.modules.items()):
+    if (_name == "ombott" or _name.startswith("ombott.")) and _mod is not static_stream and _name != "ombott.server_adapters" \
+            and getattr(_mod, "os", None) is _real_os:
+        _mod.os = FS.os
+        _mod.open = static_stream.open
 
 # warm ombott: the request object static_file reads (thread-local slots are created on first use)
 ombott.request.__init__({"REQUEST_METHOD": "GET"})
